@@ -71,14 +71,25 @@ pub fn check_bytes(original: &[u8]) -> CaseResult {
     // The view is built on a copy placed at an address that is 0..15 modulo 16 (a function of the
     // bytes): messages are usually found in the middle of some buffer, not at an allocation's start.
     let misalign = crate::engine::bytespec::Placed::misalign_of(original);
-    let placed = crate::engine::bytespec::Placed::new(original, misalign);
-    let r = check_bytes_in_place(placed.bytes());
-    r.map(|o| o.label(["address%4=0", "address%4=1", "address%4=2", "address%4=3"][misalign % 4]))
+    let mut placed = crate::engine::bytespec::Placed::new(original, misalign);
+    let r = check_bytes_in_place(placed.bytes())?;
+    // Then a sibling at the very same address and length: one bit of one header word flipped
+    // (a verdict must depend on the bytes, not on having seen this buffer before).
+    if original.len() >= 8 && misalign % 2 == 0 {
+        let h = original.iter().take(48).fold(original.len(), |h, b| h.wrapping_mul(41).wrapping_add(*b as usize));
+        let words = original.len() / 4;
+        let at = 4 * (h % words) + (h / 7) % 4;
+        placed.bytes_mut()[at] ^= 1 << ((h / 31) % 8);
+        check_bytes_in_place(placed.bytes()).map_err(|f| Fail::new(f.sig, format!("second message at the same address (byte {at} of the first one changed): {}", f.msg)))?;
+    }
+    Ok(r.label(["address%4=0", "address%4=1", "address%4=2", "address%4=3"][misalign % 4]))
 }
 
 fn check_bytes_in_place(bytes: &[u8]) -> CaseResult {
     let want = tlv_ref::parse(bytes);
-    let got = panics::catch(|| MessageView::new(Cow::Borrowed(bytes)));
+    // A borrowed or (for one byte string in four) an owned copy of the bytes.
+    let owned = bytes.iter().take(32).fold(bytes.len(), |h, b| h.wrapping_mul(37).wrapping_add(*b as usize)) % 4 == 3;
+    let got = panics::catch(|| if owned { MessageView::new(Cow::Owned(bytes.to_vec())) } else { MessageView::new(Cow::Borrowed(bytes)) });
     let view = match got {
         Err(p) => return Err(Fail::new(format!("new:panic:{}", p.signature()), format!("MessageView::new panicked on {}: {}", show(bytes), p.describe()))),
         Ok(r) => r,
@@ -121,7 +132,7 @@ fn check_bytes_in_place(bytes: &[u8]) -> CaseResult {
             let mut at = 8 * n;
             for i in 0..n {
                 let v = view.get_value(i).ok_or_else(|| Fail::new("get_value:none", format!("{}: get_value({i}) is None", desc())))?;
-                let start = v.as_ptr() as usize - bytes.as_ptr() as usize;
+                let start = (v.as_ptr() as usize).wrapping_sub(view.inner().as_ptr() as usize);
                 if start != at && !(v.is_empty()) {
                     return Err(Fail::new("tiling", format!("{}: value {i} starts at byte {start}, expected {at}", desc())));
                 }
@@ -401,7 +412,7 @@ fn replay(_ctx: &Ctx, _group: &str, case: &Value) -> CaseResult {
 pub fn def() -> PropDef {
     PropDef {
         id: "C12",
-        rule: "shaped: start from a consistent header for N in 0..12 values (N up to 1100 in two cases out of 14, with the perturbed position then biased to power-of-two boundaries) (lengths 0 common, tags from a small pool so that equal tags occur) and apply one perturbation: swap two offsets, swap two tags, put the last offset at / just beyond the payload, shorten or lengthen the payload, declare N+1/N+2/N-1 or a huge N (2^28..2^32-1), an offset near u32::MAX, all tags equal; optionally truncate at any length. raw: short arbitrary byte strings. truncate-every-length: every prefix of five valid messages. small-word-strings: every string of up to 6 (8) little-endian words over {0,1,2,3,u32::MAX} followed by 0..3 bytes. Every byte string is handed to the library at an address that is 0..15 modulo 16 (a function of the bytes), not at an allocation's start. Oracle: new never panics and accepts iff an independent validator does; on accepted views no accessor panics for indices 0..N+2 and usize::MAX-1, usize::MAX; values for 0..N tile the bytes after the 8N-byte header (checked by address); get(i), iter().nth(i), (tags()[i], get_value(i)) agree and equal the reference parse; every index >= N gives None from get, get_value and iter; find / find_tag agree with the stored tags; tags_match_exactly is true for the tags and false for a longer, shorter or perturbed list. Non-trivial: accepted with N in {0,1} or with equal adjacent tags or offsets, or rejected by a check other than the 4-byte minimum. Distinct: hash of the serialised case / by enumeration.",
+        rule: "shaped: start from a consistent header for N in 0..12 values (N up to 1100 in two cases out of 14, with the perturbed position then biased to power-of-two boundaries) (lengths 0 common, tags from a small pool so that equal tags occur) and apply one perturbation: swap two offsets, swap two tags, put the last offset at / just beyond the payload, shorten or lengthen the payload, declare N+1/N+2/N-1 or a huge N (2^28..2^32-1), an offset near u32::MAX, all tags equal; optionally truncate at any length. raw: short arbitrary byte strings. truncate-every-length: every prefix of five valid messages. small-word-strings: every string of up to 6 (8) little-endian words over {0,1,2,3,u32::MAX} followed by 0..3 bytes. Every byte string is handed to the library at an address that is 0..15 modulo 16 (a function of the bytes), not at an allocation's start, borrowed or (one in four) owned; for half of them a sibling with one header bit flipped is then checked at the very same address. Oracle: new never panics and accepts iff an independent validator does; on accepted views no accessor panics for indices 0..N+2 and usize::MAX-1, usize::MAX; values for 0..N tile the bytes after the 8N-byte header (checked by address); get(i), iter().nth(i), (tags()[i], get_value(i)) agree and equal the reference parse; every index >= N gives None from get, get_value and iter; find / find_tag agree with the stored tags; tags_match_exactly is true for the tags and false for a longer, shorter or perturbed list. Non-trivial: accepted with N in {0,1} or with equal adjacent tags or offsets, or rejected by a check other than the 4-byte minimum. Distinct: hash of the serialised case / by enumeration.",
         assumptions: &["refimpl/tlv_ref.rs is the reference validator (written from the crate documentation, checked against its example)"],
         exhaustive_note: Some("truncate-every-length and small-word-strings: complete enumerations"),
         shards: |t: Tier| t.pick(8, 16),
